@@ -11,6 +11,7 @@ import (
 
 func main() {
 	simrt.Main(
-		c16.Engine{TemplateDir: os.Getenv("VERIF_TEMPLATES")},
+		c16.Engine{TemplateDir: os.Getenv("VERIF_TEMPLATES"), EmergeBin: os.Getenv("VERIF_EMERGE_BIN")},
+		c16.Engine{TemplateDir: os.Getenv("VERIF_TEMPLATES"), CLIOnly: true},
 	)
 }
